@@ -532,8 +532,9 @@ func (r *rtRun) perform(rng *RNG, a rtAction, cfg rtConfig) bool {
 			a.c.mu.Unlock()
 		})
 	case "cancel":
-		if a.ctx == 0 {
+		if a.ctx == 0 && !r.rootCancelled {
 			r.rootCancelled = true
+			r.rootCancelStep = r.stepNo + 1
 		}
 		r.ctxFor(a.ctx)
 		return r.doStep(fmt.Sprintf("cancel %d", a.ctx), false, func() { r.cancels[a.ctx]() })
